@@ -9,15 +9,18 @@ Copier semantics (cross-checked against /usr/bin/rsync by tools/rsync_fidelity.p
   * per file the length is read when the file is opened and that many bytes are copied to a temporary name, then renamed;
   * a listed file that vanished makes the call fail (rsync exit code 24 -> BackupError);
   * --exclude patterns without '/' are matched (fnmatch) against the basename at any depth;
-  * an existing destination file / --link-dest candidate is reused iff it has the same length and content (real rsync
-    compares length + mtime; the simulation runs much faster than the timestamp granularity, so content is compared
-    instead - the resulting trees are the same for files whose mtime changes whenever their content does);
+  * an existing destination file / --link-dest candidate is reused iff it has the same length and the same mtime - rsync's
+    quick check. The simulation runs far faster than the timestamp granularity of the file system, so real mtimes cannot
+    be used: before every transfer (and before the SQLite dump) ``CLOCK.stamp_tree`` gives every source file a *logical*
+    mtime that changes exactly when its content changes (table keyed by inode, content hash -> tick); copies preserve it,
+    as ``rsync -a`` does. Code that copies or forges timestamps therefore behaves as it would against the real program;
   * nothing is deleted at the destination.
 """
 
 from __future__ import annotations
 
 import fnmatch
+import hashlib
 import os
 import shutil
 from pathlib import Path
@@ -31,14 +34,58 @@ class RsyncFailed(Exception):
     pass
 
 
-def _same_content(path_a, path_b):
+class LogicalMtime:
+    """mtime as a faithful function of content: a file gets a new (larger) logical mtime whenever its bytes changed."""
+
+    def __init__(self):
+        self.reset()
+
+    BASE = 1_000_000_000  # logical timestamps live in 2001, far away from any real mtime of the run
+
+    def reset(self):
+        self.table = {}
+        self.tick = self.BASE
+
+    def stamp(self, path):
+        try:
+            stat = os.stat(path)
+            with open(path, 'rb') as handle:
+                digest = hashlib.sha1(handle.read()).digest()
+        except OSError:
+            return
+        key = (stat.st_dev, stat.st_ino)
+        entry = self.table.get(key)
+        if entry is None and stat.st_mtime_ns % 10**9 == 0 and self.BASE < stat.st_mtime_ns // 10**9 <= self.tick:
+            # an unknown file that already carries a logical timestamp: somebody copied the timestamp along with
+            # (or onto) the file - keep it, this is exactly what the real quick check would see
+            entry = (digest, stat.st_mtime_ns // 10**9)
+            self.table[key] = entry
+        if entry is None or entry[0] != digest:
+            self.tick += 10
+            entry = (digest, self.tick)
+            self.table[key] = entry
+        if stat.st_mtime_ns != entry[1] * 10**9:
+            os.utime(path, ns=(entry[1] * 10**9, entry[1] * 10**9))
+
+    def stamp_tree(self, root):
+        if os.path.isfile(root):
+            self.stamp(root)
+            return
+        for dirpath, _, filenames in os.walk(root):
+            for name in filenames:
+                self.stamp(os.path.join(dirpath, name))
+
+
+CLOCK = LogicalMtime()
+
+
+def _quick_check_same(path_a, path_b):
+    """rsync's quick check: same length and same modification time."""
     try:
-        if os.path.getsize(path_a) != os.path.getsize(path_b):
-            return False
-        with open(path_a, 'rb') as fa, open(path_b, 'rb') as fb:
-            return fa.read() == fb.read()
+        sta, stb = os.stat(path_a), os.stat(path_b)
     except OSError:
         return False
+    return sta.st_size == stb.st_size and sta.st_mtime_ns == stb.st_mtime_ns
 
 
 def scan(src_root, excludes):
@@ -59,10 +106,10 @@ def scan(src_root, excludes):
 def copy_file(src, dst, link_candidate, point, stats):
     """Copy one regular file the way rsync does (temp name + rename); may raise RsyncFailed."""
     point('rsync.file', dst)
-    if os.path.lexists(dst) and _same_content(src, dst):
+    if os.path.lexists(dst) and _quick_check_same(src, dst):
         stats['skipped'] += 1
         return
-    if link_candidate and os.path.isfile(link_candidate) and _same_content(src, link_candidate):
+    if link_candidate and os.path.isfile(link_candidate) and _quick_check_same(src, link_candidate):
         tmp = dst + '.lnk~'
         if os.path.lexists(tmp):
             os.unlink(tmp)
@@ -102,18 +149,27 @@ def rsync(src, dest, link_dest=None, src_trailing_slash=False, excludes=(), poin
     src = str(src)
     dest = str(dest)
     point('rsync.scan', dest)
+    CLOCK.stamp_tree(src)
     if not os.path.exists(src):
         raise RsyncFailed(f'source does not exist: {src}')
-    os.makedirs(dest, exist_ok=True) if not os.path.isdir(dest) else None  # pylint: disable=expression-not-assigned
+    top = os.path.basename(src.rstrip('/'))
+    if not src_trailing_slash and any(fnmatch.fnmatch(top, pat) for pat in excludes):
+        return stats  # the transfer root itself is excluded: nothing is sent
     if os.path.isfile(src):
-        name = os.path.basename(src)
-        cand = os.path.join(str(link_dest), name) if link_dest else None
-        copy_file(src, os.path.join(dest, name), cand, point, stats)
+        cand = os.path.join(str(link_dest), top) if link_dest else None
+        if os.path.isdir(dest):
+            copy_file(src, os.path.join(dest, top), cand, point, stats)
+        else:
+            # a single file to a destination that does not exist: the destination *is* the file name
+            os.makedirs(os.path.dirname(dest) or '.', exist_ok=True)
+            copy_file(src, dest, cand, point, stats)
         return stats
+    if not os.path.isdir(dest):
+        os.makedirs(dest, exist_ok=True)
     if src_trailing_slash:
         base_rel = ''
     else:
-        base_rel = os.path.basename(src.rstrip('/'))
+        base_rel = top
         os.makedirs(os.path.join(dest, base_rel), exist_ok=True)
     dirs, files = scan(src, excludes)
     for rel in dirs:
